@@ -40,5 +40,5 @@ Proof. intros _. apply node_text_total_any. Qed.
 Lemma c03_facts_hold : forallb snd gen_c03_facts = true.
 Proof. vm_compute. reflexivity. Qed.
 
-Lemma c03_facts_count : (25 <= List.length gen_c03_facts)%nat.
+Lemma c03_facts_count : (26 <= List.length gen_c03_facts)%nat.
 Proof. vm_compute. lia. Qed.
